@@ -2,7 +2,11 @@
 
 package validate
 
-import "github.com/go-openapi/spec"
+import (
+	"encoding/json"
+
+	"github.com/go-openapi/spec"
+)
 
 // C13 — numeric verdicts depend on the number, not on the Go type that carries it.
 //
@@ -226,5 +230,39 @@ func HarnessC13MultipleOfValidators() {
 	verifObserve("kind", kindNames[k])
 	verifAssert(got == want, "multipleof-verdict-is-exact-for-every-integer-kind")
 	verifAssert((MultipleOfNativeType("p", "q", val, f) == nil) == want, "multipleof-native-helper-is-exact")
+	verifReach("end")
+}
+
+// HarnessC13JSONNumber: json.Number carriers give the verdict of the float64 carrying the same number.
+// Integer literals and fractional literals are picked values (finite-domain).
+func HarnessC13JSONNumber() {
+	var jn json.Number
+	var fv float64
+	integral := verifBool()
+	if integral {
+		// picked values (the tolerance-based integer test on the float64 side makes fully symbolic
+		// values cost minutes); the end points ±2^53 are a don't-care cell (see C01)
+		x := verifPickInt(-9007199254740991, -3, 0, 2, 3, 100, 9007199254740991)
+		jn, fv = verifJSONNumberInt(x), float64(x)
+	} else {
+		f := verifPickFloat(-1.5, 0.5, 2.5, 3.0) // 3.0 is the literal "3.0": integral value, fractional literal
+		jn, fv = verifJSONNumberFloat(f), f
+	}
+	s := spec.Schema{}
+	switch verifChoose(3) {
+	case 1:
+		s.Type = spec.StringOrArray{"number"}
+	case 2:
+		s.Type = spec.StringOrArray{"integer"}
+	}
+	m := verifPickFloat(-3, 0, 2, 2.5)
+	excl := verifBool()
+	s.Maximum, s.ExclusiveMaximum = &m, excl
+	verifKF("C13-KF-JSONNUMBER-UNTYPED", len(s.Type) == 0)
+	verifKF("C13-KF-JSONNUMBER-INTEGRAL-FRACTION", verifAnd(!integral, len(s.Type) > 0 && s.Type[0] == "integer", fv == float64(int64(fv))))
+	asNumber := NewSchemaValidator(&s, nil, "", nil).Validate(jn).IsValid()
+	asFloat := NewSchemaValidator(&s, nil, "", nil).Validate(fv).IsValid()
+	verifObserve("asFloat", asFloat)
+	verifAssert(asNumber == asFloat, "json-number-verdict-equals-float64-verdict")
 	verifReach("end")
 }
